@@ -1,6 +1,8 @@
 """Contracts for src/gbigsmiles/stochastic.py (the closures of Stochastic.generate) and the accessors they use."""
 from pyvc.registry import contract, specfn
-from pyvc.sorts import BOOL, INT, REAL, List, NRef, Opaque, Ref
+from pyvc.sorts import BOOL, IDS, INT, REAL, STR, List, NRef, Opaque, Opt, Ref
+from pyvc.specs import ufunc
+from .common import SYM
 from .common import GENERATOR
 
 MOL = Opaque("Mol")
@@ -161,7 +163,7 @@ _SITE_PROPS = {**{l: ["C08"] for l in list(_S_A.values()) + list(_S_B1.values())
 contract("stochastic.Stochastic.generate.generate_repeat_units_and_finalize.add_repeat_unit",
          props=["C07", "C08", "C04", "C05"],
          params=dict(my_mol=Ref("MolGen")), captured=dict(self=Ref("Stochastic"), rng=GENERATOR), returns=Ref("MolGen"),
-         requires=["molgen_wf(my_mol)", "weights_ok(my_mol.bond_descriptors)"] + list(_STOCH_REQ),
+         requires=["molgen_wf(my_mol)", "weights_ok(my_mol.bond_descriptors)"], assumes=list(_STOCH_REQ),
          ensures=list(_ARU), labels={**_ARU, **_STOCH_REQ, **_S_A, **_S_B1, **_S_B2, **_S_C0, **_S_C1, **_S_D},
          raises_may={"RuntimeError": "True", "ValueError": "True", "IndexError": "True", "TypeError": "True"},
          assert_at={_A1: list(_S_A), _B1: list(_S_B1), _B2: list(_S_B2), _C0: list(_S_C0), _C1: list(_S_C1), _D: list(_S_D)},
@@ -175,19 +177,85 @@ contract("stochastic.Stochastic.generate.generate_repeat_units_and_finalize.add_
                    "ghost.units", "ghost.mass_after", "ghost.open_after", "ghost.bonds", "ghost.bond_a", "ghost.bond_b", "ghost.bond_t", "ghost.at_site_choices",
                    "ghost.choices", "ghost.last_p", "ghost.last_n", "ghost.last_pick", "ghost.last_rng", "ghost.last_cand", "ghost.last_norm"] + _STEP_GHOSTS)
 
+# ---- text form of a descriptor as far as generation looks at it (trusted: string assembly / parsing, bounded C01 / C02 drivers) --------------
+contract("bond.BondDescriptor.generate_string", trusted=True,
+         why_trusted="string assembly with a loop over the transition list and str.strip (outside the solvers' reach); assumed: the text is '[]' exactly for the empty "
+                     "terminal descriptor (class invariant of BondDescriptor: an empty symbol comes with no id and no weights), and two descriptors print alike without "
+                     "extensions exactly if symbol and id agree. The bounded C01 / C02 drivers check printing and parsing of descriptors",
+         props=["C01"], params=dict(self=Ref("BondDescriptor"), extension=BOOL), returns=STR,
+         ensures=["(result == '[]') == (self.descriptor == '')"],
+         modifies=[], allocates=False)
+ufunc("compat_text_of", [Ref("BondDescriptor")], STR)
+contract("bond._create_compatible_bond_text", trusted=True,
+         why_trusted="string formatting; assumed together with BondDescriptor.__init__: parsing this text gives a descriptor with the SAME symbol and id as `bond`, single bond "
+                     "order, weight 1 and no transition list (bounded C01 / C02 drivers check the parser)",
+         props=["C06"], params=dict(bond=Ref("BondDescriptor")), returns=STR, ensures=["result == compat_text_of(bond)"], modifies=[], allocates=False)
+ufunc("txt_sym", [STR], SYM)
+ufunc("txt_id_none", [STR], BOOL)
+ufunc("txt_id", [STR], INT)
+contract("bond.BondDescriptor.__init__", trusted=True,
+         why_trusted="string surgery (find / slices / split / float / int); assumed: the fields are functions of the text (txt_sym, txt_id), and for the text made by "
+                     "_create_compatible_bond_text they are the symbol and id of the descriptor it was made from, with weight 1, no list and single bond order. "
+                     "The bounded C02 driver checks the parser against an independent printer",
+         props=["C02"], params=dict(self=Ref("BondDescriptor"), big_smiles_ext=STR, descr_num=INT, preceding_characters=STR, atom_bonding_to=Opt(INT)), returns=None,
+         ensures=["self.descriptor == txt_sym(big_smiles_ext)", "is_none(self.transitions) or len(self.transitions) >= 2"],
+         raises_may={"RuntimeError": "True", "ValueError": "True", "IndexError": "True"},
+         modifies=[], allocates=True)
+
 # ---- closure: capping (on whatever molecule it is given) --------------------------------------------------------------------
+_F0 = "terminal_bond_idx = choose_compatible_weight(my_mol.bond_descriptors, invert_terminal, rng)"
+_F1 = "starting_bond_idx = choose_compatible_weight(my_mol.bond_descriptors, None, rng)"
+_F2 = "connecting_bond_idx = choose_compatible_weight(self.end_bonds, starting_bond, rng)"
+_F3 = "connecting_bond_idx = token.bond_descriptors.index(connecting_bond)"
+_F4 = "my_mol = my_mol.attach_other(starting_bond_idx, new_mol, connecting_bond_idx)"
+_T_F0 = site("reserved-descriptor", pick_site("my_mol.bond_descriptors", "invert_terminal", "terminal_bond_idx"))
+_T_F1 = site("cap:open-descriptor", pick_site("my_mol.bond_descriptors", "None", "starting_bond_idx"))
+_T_F2 = site("cap:end-group", pick_site("self.end_bonds", "starting_bond", "connecting_bond_idx"))
+_T_F3 = site("cap:end-group-token", {
+    "connecting_bond is self.end_bonds[last_cand[last_pick]] and token is self.end_tokens[self.end_bond_token_idx[last_cand[last_pick]]] "
+    "and token.bond_descriptors[connecting_bond_idx] is connecting_bond": "the-picked-end-group-descriptor-is-located-in-its-token"})
+_T_F4 = site("cap:bond", {
+    "bond_a[bonds - 1] == val(starting_bond.atom_bonding_to) and bond_t[bonds - 1] == starting_bond.bond_type and bond_t[bonds - 1] == connecting_bond.bond_type "
+    "and compat_spec(starting_bond, connecting_bond)": "cap-joins-the-picked-descriptors-compatible-with-their-bond-order"})
+
+_FIN = {
+    "result is my_mol": "caps-the-molecule-it-was-given",
+    "units == old(units) and draws == old(draws)": "no-unit-and-no-draw-while-capping",
+    "forall(lambda q: mass_after[q] == old(mass_after[q]) and open_after[q] == old(open_after[q]))": "recorded-units-unchanged",
+    "implies(self.right_terminal.descriptor == '', len(my_mol.bond_descriptors) == 0)": "closed-right-end-leaves-no-open-descriptor",
+    "implies(self.right_terminal.descriptor != '', len(my_mol.bond_descriptors) == 1)": "open-right-end-leaves-exactly-the-reserved-descriptor",
+    "molgen_wf(my_mol) and weights_ok(my_mol.bond_descriptors)": "representation-invariant-kept",
+}
 contract("stochastic.Stochastic.generate.finalize_mol",
-         props=["C07"], trusted=True,
-         why_trusted="not yet verified by the engine; monitored at run time (C04 / C06 / C08 drivers)",
+         props=["C06", "C08", "C04", "C07"],
          params=dict(my_mol=Ref("MolGen")), captured=dict(self=Ref("Stochastic"), rng=GENERATOR), returns=Ref("MolGen"),
-         requires=["molgen_wf(my_mol)"],
-         ensures=["result is my_mol", "units == old(units) and draws == old(draws)",
-                  "forall(lambda q: mass_after[q] == old(mass_after[q]) and open_after[q] == old(open_after[q]))",
-                  _GROW_FRAME],
-         raises_may={"RuntimeError": "True", "ValueError": "True", "Exception": "True"},
+         requires=["molgen_wf(my_mol)", "weights_ok(my_mol.bond_descriptors)", "end_groups_are_leaves(self)"], assumes=list(_STOCH_REQ),
+         ensures=list(_FIN), labels={**_FIN, **_STOCH_REQ, **_T_F0, **_T_F1, **_T_F2, **_T_F3, **_T_F4, "end_groups_are_leaves(self)": "inv-end-groups-have-one-descriptor"},
+         raises_may={"RuntimeError": "True", "ValueError": "True", "IndexError": "True", "TypeError": "True"},
+         assert_at={_F0: list(_T_F0), _F1: list(_T_F1), _F2: list(_T_F2), _F3: list(_T_F3), _F4: list(_T_F4)},
+         ghost_before={_F0: ["at_site_choices = choices"], _F1: ["at_site_choices = choices"], _F2: ["at_site_choices = choices"]},
+         clause_props={**{l: ["C08"] for l in list(_T_F0.values()) + list(_T_F1.values()) + list(_T_F2.values()) + list(_T_F3.values())}, **{l: ["C04"] for l in _T_F4.values()},
+                       "no-unit-and-no-draw-while-capping": ["C07"], "recorded-units-unchanged": ["C07"], "variant": ["C06"],
+                       "closed-right-end-leaves-no-open-descriptor": ["C06"], "open-right-end-leaves-exactly-the-reserved-descriptor": ["C06"],
+                       "representation-invariant-kept": ["C04", "C06"], "caps-the-molecule-it-was-given": ["C06", "C07"], "cover": ["C06", "C08"], "frame": ["C10"]},
          modifies=["MolGen._mol@my_mol", "MolGen.graph@my_mol", "list@my_mol.bond_descriptors",
-                   "ghost.bonds", "ghost.bond_a", "ghost.bond_b", "ghost.bond_t",
-                   "ghost.choices", "ghost.last_p", "ghost.last_n", "ghost.last_pick", "ghost.last_rng", "ghost.last_cand", "ghost.last_norm"])
+                   "ghost.bonds", "ghost.bond_a", "ghost.bond_b", "ghost.bond_t", "ghost.at_site_choices", "ghost.d2_token",
+                   "ghost.choices", "ghost.last_p", "ghost.last_n", "ghost.last_pick", "ghost.last_rng", "ghost.last_cand", "ghost.last_norm"],
+         loops={1: dict(anchor="len(my_mol.bond_descriptors) > 0",
+                        modifies=["MolGen._mol@my_mol", "MolGen.graph@my_mol", "list@my_mol.bond_descriptors"],
+                        ghost_modifies=["bonds", "bond_a", "bond_b", "bond_t", "at_site_choices", "choices", "last_p", "last_n", "last_pick", "last_rng", "last_cand", "last_norm"],
+                        inv=["my_mol is entry(my_mol) and molgen_wf(my_mol) and weights_ok(my_mol.bond_descriptors)",
+                             "implies(not is_none(terminal_bond), terminal_bond.weight >= 0 and desc_wf(my_mol, terminal_bond) and preexisting(terminal_bond) and "
+                             "forall(lambda k: implies(0 <= k and k < len(my_mol.bond_descriptors), my_mol.bond_descriptors[k] is not terminal_bond)))",
+                             "iff(is_none(terminal_bond), self.right_terminal.descriptor == '')"],
+                        locals={"terminal_bond": NRef("BondDescriptor")}, stable=["my_mol", "terminal_bond"],
+                        decreases="len(my_mol.bond_descriptors)")})
+
+# every end group is a leaf: exactly one descriptor (C06's well-posedness; without it capping need not terminate)
+specfn('''
+def end_groups_are_leaves(s):
+    return forall(lambda k: implies(0 <= k and k < len(s.end_tokens), len(s.end_tokens[k].bond_descriptors) == 1))
+''')
 
 # ---- C07: the growth loop ----------------------------------------------------------------------------------------------------
 # ghost: units = number of growth steps so far, mass_after[q] / open_after[q] = heavy-atom mass / open descriptors of the GROWING
@@ -206,7 +274,7 @@ contract("stochastic.Stochastic.generate.generate_repeat_units_and_finalize",
          params=dict(my_mol=Ref("MolGen")), captured=dict(self=Ref("Stochastic"), rng=GENERATOR,
                                                           finalize_mol=("func", "stochastic.Stochastic.generate.finalize_mol")),
          returns=Ref("MolGen"),
-         requires=["molgen_wf(my_mol)", "not is_none(self.distribution)", "dist_inv(self.distribution)", "weights_ok(my_mol.bond_descriptors)"] + list(_STOCH_REQ),
+         requires=["molgen_wf(my_mol)", "not is_none(self.distribution)", "dist_inv(self.distribution)", "weights_ok(my_mol.bond_descriptors)", "end_groups_are_leaves(self)"], assumes=["notation_owned(self)"],
          ensures=list(_C07), labels=_C07,
          clause_props={"target-drawn-from-the-declared-law-with-the-declared-parameters": ["C09", "C07"], "cover": ["C07", "C09"]},
          raises_may={"RuntimeError": "True", "ValueError": "True", "NotImplementedError": "True", "Exception": "True"},
@@ -219,7 +287,7 @@ contract("stochastic.Stochastic.generate.generate_repeat_units_and_finalize",
              modifies=["MolGen._mol@my_mol", "MolGen.graph@my_mol", "list@my_mol.bond_descriptors"],
              ghost_modifies=["units", "mass_after", "open_after", "bonds", "bond_a", "bond_b", "bond_t",
                              "choices", "last_p", "last_n", "last_pick", "last_rng", "last_cand", "last_norm", "at_site_choices", "d2_token"],
-             locals={"finalized_my_mol": Ref("MolGen")},
+             locals={"finalized_my_mol": Ref("MolGen")}, stable=["my_mol"],
              inv=["my_mol is entry(my_mol) and molgen_wf(my_mol) and weights_ok(my_mol.bond_descriptors)",
                   "draws == old(draws) + 1 and last_draw == target_mol_weight and last_draw_rng == rng",
                   "last_draw_family == doc_family(self.distribution) and last_draw_p1 == doc_p1(self.distribution) and last_draw_p2 == doc_p2(self.distribution)",
